@@ -1,0 +1,15 @@
+//go:build verif
+
+package tax
+
+// VerifRoots exposes the package's global registries to the external
+// verification harness (read-only use: fingerprinting shared state).
+// Only compiled with the "verif" build tag.
+func VerifRoots() map[string]any {
+	return map[string]any{
+		"tax.regimes":       regimes,
+		"tax.addons":        addons,
+		"tax.extensionDefs": extensionDefs,
+		"tax.catalogues":    catalogues,
+	}
+}
